@@ -14,8 +14,42 @@ def closure_named(F, parent, pred):
     return None
 
 
+def r7_length_bonus(F, res):
+    """`highest terminal priority first, THEN the longest string recogniser`: a lexicographic order. The sort key is
+    `prio * 1000 + len(string)`: a string terminal of 1000+ bytes outranks the next priority (D-explore, contrived)."""
+    rid = res.rule("C06-R7", "terminal order key: priority strictly before recogniser length (lexicographic, not prio*K + len with an "
+                   "unbounded len)", floor=1)
+    try:
+        f = F.one(r"^rustemo_compiler::table::LRTable::<'g, 's>::sort_terminals$")
+    except Exception:      # noqa
+        res.anchor_lost(rid, "LRTable::sort_terminals not found")
+        return
+    packed = None
+    for h in [f] + F.all_nested_closures(f):
+        for q in Sim(h, F, max_paths=20000).run():
+            for e in q.events:
+                if e[0] != "return" or not isinstance(e[1], tuple):
+                    continue
+                for x in mir.walk(e[1]):
+                    if isinstance(x, tuple) and x[0] == "bin" and x[1] in ("Add", "AddWithOverflow", "AddUnchecked"):
+                        l, r = x[2], x[3]
+                        def scaled(t):
+                            return any(isinstance(y, tuple) and y[0] == "bin" and y[1].startswith("Mul") and mir.has_field(y, "prio") for y in mir.walk(t))
+                        def length(t):
+                            return mir.has_call(t, "::len")
+                        if (scaled(l) and length(r)) or (scaled(r) and length(l)):
+                            packed = h
+    if packed is not None:
+        res.violation(rid, "length-bonus-unbounded", "the terminal sort key is `prio * 1000 + string length`: the length bonus is not "
+                      "bounded by the scale, a string terminal of 1001 bytes at priority 10 sorts before a terminal of priority 11",
+                      packed.loc())
+    else:
+        res.ok(rid, "length-bonus-unbounded", f.loc(), "no packed priority/length key")
+
+
 def run(ctx, res):
     F = ctx.facts("core")
+    r7_length_bonus(F, res)
     f = F.one(ST + "$")
     rid1 = res.rule("C06-R1", "try order: candidates are the terminals with a non-empty action cell; stable sort, descending, by "
                     "prio*1000 + (string length iff most-specific and string recogniser)", floor=4)
